@@ -149,7 +149,13 @@ func (vc *VC) Generate() (err error) {
 	// contract binding: every loop / site clause must have bound to something
 	if vc.fc != nil {
 		for _, c := range vc.fc.Invs {
-			if c.Loop < 1 || c.Loop > len(vc.loopList) {
+			found := false
+			for _, li := range vc.loopList {
+				if li.ordinal == c.Loop {
+					found = true
+				}
+			}
+			if !found {
 				vc.bindingFailure(c, fmt.Sprintf("loop %d does not exist (function has %d loops)", c.Loop, len(vc.loopList)))
 			}
 		}
@@ -269,6 +275,7 @@ func (vc *VC) findLoops() {
 			}
 		}
 	}
+	vc.rebindLoops()
 }
 
 func (vc *VC) topoOrder() []*ssa.BasicBlock {
@@ -854,7 +861,7 @@ func (vc *VC) objModKeyStatic(m string, fn *ssa.Function, sig *types.Signature) 
 		}
 		found := false
 		for j := 0; j < s.NumFields(); j++ {
-			if s.Field(j).Name() == name {
+			if recFieldName(st, j) == name {
 				found = true
 				if i == len(parts)-2 {
 					return vc.fieldKey(st, j), true
